@@ -25,6 +25,7 @@ def dispatch (j : Json) : Except String Json := do
   | "lock" => handleLock j
   | "execcheck" => handleExecCheck j
   | "groups" => handleGroups j
+  | "select" => handleSelect j
   | "ping" => pure (Json.mkObj [("pong", true)])
   | _ => throw s!"unknown op {op}"
 
